@@ -34,7 +34,7 @@ ASSUMPTIONS = [
     "FixRot geometries have inertia-tensor condition number <= 1e3 (non-degenerate, as the statement requires)",
     "FixAtoms and FixCom are never combined on one Atoms object: ASE applies constraints one after the other, so FixCom's rigid shift moves the atoms FixAtoms has just restored (an ASE semantics, observed, not a quansino defect)",
 ]
-REQUIRED = {"forcebias_sims_with_custom_displacement_masses": 10, "trials_fixatoms": 800, "trials_fixcom": 500, "forcebias_steps": 300, "hamiltonian_trials": 150, "fixrot_calls": 2000, "moved_trials": 1000, "exchange_trials_with_fixed_framework": 100}
+REQUIRED = {"simulations_constrained_after_free_steps": 10, "forcebias_sims_with_custom_displacement_masses": 10, "trials_fixatoms": 800, "trials_fixcom": 500, "forcebias_steps": 300, "hamiltonian_trials": 150, "fixrot_calls": 2000, "moved_trials": 1000, "exchange_trials_with_fixed_framework": 100}
 SHARD_TIMEOUT = {"quick": 900, "thorough": 3000}
 
 
@@ -86,10 +86,24 @@ def run_mc(spec, rec):
             if s["atoms"].get("kind") != "molecules":
                 s["atoms"]["n"] = max(3, s["atoms"].get("n", 3))
         shape = table_shape(s)
-        cons = ",".join(s["atoms"]["constraints"])
+        # in a fifth of the simulations the atoms are free at first and the constraint is put on after a few steps (a
+        # substrate frozen after equilibration): whatever the moves and integrators remember from before, it holds from then on
+        late = spec["family"] != "grand" and bool(rng.random() < 0.2)
+        late_cons = s["atoms"]["constraints"]
+        if late:
+            s["atoms"]["constraints"] = []
+        cons = ",".join(late_cons if late else s["atoms"]["constraints"]) + (" (set after 3 free steps)" if late else "")
         wit0 = {"driver": s["driver"], "table": shape, "constraints": cons, "seed": s["seed"]}
         try:
             mc, info = sims.build(s)
+            if late:
+                from ase.constraints import FixAtoms, FixCom
+
+                mc.run(3)
+                n_ = len(mc.atoms)
+                c_ = late_cons[0]
+                mc.atoms.set_constraint(FixCom() if c_ == "FixCom" else FixAtoms(indices=[0] if c_.endswith("first1") else [n_ - 2, n_ - 1]))
+                rec.count("simulations_constrained_after_free_steps")
         except Exception as ex:  # noqa: BLE001
             rec.viol(f"C12/build-raised/{classify_exception(ex)}", f"building raised {ex}"[:300], wit0)
             continue
